@@ -77,7 +77,7 @@ def exc_sig(exc):
 class Outcome:
     __slots__ = ('case', 'text', 'profile', 'E', 'exc', 'stage', 'arith', 'actions', 'snaps',
                  'iterations', 'budget_hit', 'nballots', 'elected', 'defeated', 'withdrawn',
-                 'report', 'dump', 'json', 'record')
+                 'report', 'dump', 'json', 'record', 'header_keys', 'names')
 
     def __init__(self):
         for s in self.__slots__:
@@ -148,6 +148,7 @@ def run(case, snap=False, renders=False, iter_budget=12, text=None, bound=True, 
         o.exc = exc
         return o
     o.E = E
+    o.names = {c.cid: c.name for c in E.C}      # from the election object, not from the record header
     o.arith = Arith(E.V)
     o.nballots = E.nBallots
     o.iterations = 0
@@ -194,6 +195,7 @@ def run(case, snap=False, renders=False, iter_budget=12, text=None, bound=True, 
     o.iterations = counter[0]
     rec = E.erecord
     o.record = rec
+    o.header_keys = frozenset(rec.keys())       # what Election.record() offers right after the count, before any rendering
     if decode:
         o.actions = [decode_action(A) for A in rec['actions']]
     if o.stage == 'done':
